@@ -62,5 +62,5 @@ def run(tier, seed):
         return rc or 2
     if len(seen) < 2 * len(FAMS):
         V.log('coverage floor not met', sorted(seen))
-        return 2
+        return 1 if rc == 1 else 2  # a violation outranks a missed coverage floor
     return rc
